@@ -122,7 +122,8 @@ std::string gen_config(const Profile &p) {
 }
 
 // ---- operations ------------------------------------------------------------
-enum OpK { PUT, DEL, BATCH, GET, HAS, FLUSH, CRANGE, COMPACT, REOPEN, SNAP, RELEASE, ITER_NEW, ITER, ITER_DEL, CHECK, FILL, READS, PROP, APPROX, GETSNAP };
+enum OpK { PUT, DEL, BATCH, GET, HAS, FLUSH, CRANGE, COMPACT, REOPEN, SNAP, RELEASE, ITER_NEW, ITER, ITER_DEL, CHECK, FILL, READS, PROP, APPROX, GETSNAP,
+           REPAIR, BACKUP, BCHECK, COPY, DESTROY, LOCKPROBE, BADOPEN };
 
 std::string gen_iter_action(const Profile &p) {
   int id = (!p.iters.empty() && chance(92)) ? pick_from(p.iters) : uni(0, 3);
@@ -222,6 +223,13 @@ std::string gen_op(Profile &p, const std::vector<std::pair<int, OpK>> &weights) 
     case READS: return "reads " + gen_key(p) + fmt(" %d", uni(50, 400));
     case PROP: return "prop";
     case APPROX: return "approx " + gen_key(p) + " " + gen_key(p);
+    case REPAIR: p.iters.clear(); p.snaps.clear(); return fmt("repair %d", uni(0, 5));
+    case BACKUP: return "backup";
+    case BCHECK: return "bcheck";
+    case COPY: p.iters.clear(); p.snaps.clear(); return "copy";
+    case DESTROY: p.iters.clear(); p.snaps.clear(); p.used.clear(); return "destroy";
+    case LOCKPROBE: return "lockprobe";
+    case BADOPEN: p.iters.clear(); p.snaps.clear(); return fmt("badopen %d", uni(0, 2));
   }
   return "check";
 }
@@ -236,6 +244,13 @@ std::vector<std::pair<int, OpK>> weights_for(const std::string &kind) {
   if (kind == "C13")
     return {{24, PUT}, {8, DEL}, {5, BATCH}, {3, GET}, {12, FLUSH}, {12, CRANGE}, {4, COMPACT}, {6, REOPEN},
             {2, SNAP}, {1, RELEASE}, {6, ITER_NEW}, {10, ITER}, {2, ITER_DEL}, {2, CHECK}, {2, FILL}};
+  if (kind == "C19")
+    return {{30, PUT}, {10, DEL}, {6, BATCH}, {3, GET}, {12, FLUSH}, {14, CRANGE}, {2, COMPACT}, {2, REOPEN},
+            {5, SNAP}, {1, RELEASE}, {1, ITER_NEW}, {1, ITER}, {2, CHECK}, {1, FILL}, {8, REPAIR}};
+  if (kind == "C20")
+    return {{30, PUT}, {8, DEL}, {6, BATCH}, {4, GET}, {8, FLUSH}, {7, CRANGE}, {1, COMPACT}, {3, REOPEN},
+            {2, SNAP}, {1, RELEASE}, {2, ITER_NEW}, {3, ITER}, {1, ITER_DEL}, {2, CHECK}, {1, FILL},
+            {8, BACKUP}, {3, BCHECK}, {3, COPY}, {2, DESTROY}, {4, LOCKPROBE}, {5, BADOPEN}};
   if (kind == "C17")
     return {{26, PUT}, {8, DEL}, {6, BATCH}, {2, GET}, {12, FLUSH}, {12, CRANGE}, {3, COMPACT}, {12, REOPEN},
             {2, SNAP}, {1, RELEASE}, {1, ITER_NEW}, {1, ITER}, {1, CHECK}, {3, FILL}, {1, READS}};
